@@ -527,6 +527,12 @@ func (i *Inst) RunRelay(r *RlScript, tw *TraceWriter, rng *rand.Rand) error {
 				}
 			}
 			apart := a["apart"] == true
+			slowHost := a["slowhost"] == true
+			if slowHost {
+				// a busy host: it is behind in reading when the close comes (what is still on its way must arrive all the same)
+				bc.SetSlow(100*time.Millisecond, 2*time.Millisecond)
+				time.Sleep(5 * time.Millisecond)
+			}
 			var raw, want []byte
 			var parts [][]byte
 			for _, n := range sizes {
@@ -550,7 +556,7 @@ func (i *Inst) RunRelay(r *RlScript, tw *TraceWriter, rng *rand.Rand) error {
 			if serr != nil && !i.P.Alive() {
 				return fmt.Errorf("action %d: %w", ai, serr)
 			}
-			hostEnd := bc.WaitClosed(8 * time.Second)
+			hostEnd := bc.WaitClosed(map[bool]time.Duration{false: 8 * time.Second, true: 30 * time.Second}[slowHost])
 			if hostEnd == "" {
 				// the host connection is still open: give late bytes the benefit of the doubt, then take what is there
 				bc.WaitRecv(hostPos+len(want), 2*time.Second)
@@ -560,7 +566,7 @@ func (i *Inst) RunRelay(r *RlScript, tw *TraceWriter, rng *rand.Rand) error {
 			hostPos = len(all)
 			pre := len(got) <= len(want) && bytes.Equal(got, want[:len(got)])
 			tw.Line(M{"ev": "c2b", "transport": r.Transport, "decl": len(want), "carr": len(want), "got": len(got), "prefix": pre, "end": false, "hookbytes": 0, "skipped": false, "burst": len(sizes),
-				"closing": true, "apart": apart, "hostEnd": hostEnd})
+				"closing": true, "apart": apart, "hostEnd": hostEnd, "slowhost": slowHost})
 			return nil
 		case "bcrowd":
 			// the host streams n bytes to a client that reads in bursts with pauses (the gateway's writes to it do not
